@@ -214,6 +214,33 @@ impl<'s> Semantics<'s> {
                 Expr::mul(index, expr_const((bits / 8) as u64, address_bits))?,
             )?;
 
+            // with an address-size prefix the effective address, including the bit-string
+            // displacement, wraps at the width of the address registers
+            let mem = op0.mem();
+            let address_register = if mem.base != x86_reg::X86_REG_INVALID {
+                mem.base
+            } else {
+                mem.index
+            };
+            let effective_bits = match address_register {
+                x86_reg::X86_REG_INVALID | x86_reg::X86_REG_RIP => address_bits,
+                register => self.mode().get_register(register)?.bits(),
+            };
+            let address = if effective_bits < address_bits {
+                let wrap = |address: Expression| -> Result<Expression, Error> {
+                    Expr::zext(address_bits, Expr::trun(effective_bits, address)?)
+                };
+                match mem.segment {
+                    x86_reg::X86_REG_INVALID => wrap(address)?,
+                    segment => {
+                        let segment = self.mode().get_register(segment)?.get()?;
+                        Expr::add(segment.clone(), wrap(Expr::sub(address, segment)?)?)?
+                    }
+                }
+            } else {
+                address
+            };
+
             let element = Scalar::temp(self.instruction().address, bits);
             block.load(element.clone(), address.clone());
 
